@@ -34,11 +34,15 @@ fn main() -> anyhow::Result<()> {
             let sample = arg_after(&args, "--sample").and_then(|s| s.parse().ok());
             let budget_s = arg_after(&args, "--budget").and_then(|s| s.parse().ok()).unwrap_or(0);
             let max_div = arg_after(&args, "--max-div").and_then(|s| s.parse().ok()).unwrap_or(200);
-            let g = graph::Graph::load(&path)?;
             let mut d = pool_driver::PoolDriver::new(&stakes, own, max_slot, seed);
-            let opts = graph::ReplayOpts { sample, seed, max_div, budget_s };
-            let rep = graph::replay(&g, &mut d, &opts);
-            rep.to_json("pool")
+            if args.iter().any(|a| a == "--sim") {
+                graph::replay_sim(&path, &mut d, max_div)?.to_json("pool")
+            } else {
+                let g = graph::Graph::load(&path)?;
+                let opts = graph::ReplayOpts { sample, seed, max_div, budget_s };
+                let rep = graph::replay(&g, &mut d, &opts);
+                rep.to_json("pool")
+            }
         }
         _ => json!({"error": format!("unknown command {cmd}")}),
     };
